@@ -122,6 +122,10 @@ def deep_merge_combine_lists(dct, merge_dct):
     return dct
 
 
+# update keys whose value is a list of structural operations
+STRUCTURAL_LIST_KEYS = ('_add', '_delete', '_move', '_generate')
+
+
 def deep_merge_multi_update(dct, merge_dct):
     """ Recursive dict merge combines multiple values
 
@@ -141,6 +145,12 @@ def deep_merge_multi_update(dct, merge_dct):
                 and '_updater' not in dct[k]
                 and '_updater' not in merge_dct[k]):
             deep_merge_multi_update(dct[k], merge_dct[k])
+        elif (k in dct and k in STRUCTURAL_LIST_KEYS
+                and isinstance(dct[k], list)
+                and isinstance(merge_dct[k], list)):
+            # structural operations that reach one store through
+            # several ports: all of them are carried out
+            dct[k] = dct[k] + merge_dct[k]
         elif k in dct:
             # put values together in a list under '_multi_update' key
             # (an update that names its own updater is one value)
